@@ -1382,7 +1382,8 @@ class SyncObj(object):
                 not self.__forceLogCompaction:
             return
 
-        if self.__conf.logCompactionSplit:
+        if self.__conf.logCompactionSplit and self.__selfNode is not None:
+            # (a read-only node has no id, hence no slot of its own: it compacts whenever it is due)
             allNodeIds = sorted([node.id for node in (self.__otherNodes | {self.__selfNode})])
             nodesCount = len(allNodeIds)
             selfIdx = allNodeIds.index(self.__selfNode.id)
